@@ -30,6 +30,86 @@ Proof.
     exists (nick, rk). split; [reflexivity|]. apply elem_of_list_In, elem_of_map_to_list. exact Hr.
 Qed.
 
+(* KICK of one victim that the rank rule lets through: after the removal, one copy of the KICK line goes
+   to every member that is left and one to the victim itself (still a user, no longer a member); the
+   refusals computed by the decision come first and go to the sender only *)
+Theorem kick_announced s c ch v comment r nick :
+  c_nick c = Some nick -> (kick_decide s nick (client_name c) ch [v]).1 = [v] ->
+  process_kick cfg i s c ch [v] comment = Ok r ->
+  let line := from (c_source c) (lit "KICK " ++ ch ++ [c_space] ++ v ++ lit " :" ++ default (lit "Kicked") comment) in
+  exists rest x,
+    h_out r = mine cfg i (kick_decide s nick (client_name c) ch [v]).2 ++ rest ++ [x] /\
+    delivered (h_sh r) line v x /\
+    match chans (h_sh r) !! ch with
+    | Some co' => Forall2 (delivered (h_sh r) line) (member_names co') rest
+    | None => rest = []
+    end.
+Proof.
+  intros Hn Hk. unfold process_kick, own_nick. rewrite Hn. cbv beta iota zeta delta [rbind].
+  destruct (kick_decide s nick (client_name c) ch [v]) as [kicked o1] eqn:Ed. cbn [fst snd] in *. subst kicked.
+  cbn [rfold]. destruct (st_remove_user_from_channel ch v s) as [s1|] eqn:E1; cbn [rbind]; [|discriminate].
+  cbn [rfold]. cbv beta iota zeta delta [rbind]. unfold str in *.
+  match goal with |- context [match ?x with Some co => send_all _ _ _ | None => _ end] => destruct x as [co'|] eqn:Eco end.
+  - 
+    match goal with |- context [send_all ?a ?b ?l] => destruct (send_all a b l) as [rest|] eqn:Es end; [|discriminate].
+    match goal with |- context [send_to ?a ?b ?l] => destruct (send_to a b l) as [x|] eqn:Ex end; [|discriminate].
+    intros [= <-]. cbn [h_out h_sh app]. exists rest, x. split; [reflexivity|]. split.
+    + unfold send_to, get_user in Ex.
+      match type of Ex with context [match ?y with Some _ => _ | None => Panic P_unwrap_user end] => destruct y as [u|] eqn:Eu end;
+        cbn [rbind] in Ex; [|discriminate Ex].
+      injection Ex as <-. exists u. split; [exact Eu|reflexivity].
+    + rewrite Eco. now apply send_all_spec.
+  - cbv beta iota zeta delta [rbind].
+    match goal with |- context [send_to ?a ?b ?l] => destruct (send_to a b l) as [x|] eqn:Ex end; [|discriminate].
+    intros [= <-]. cbn [h_out h_sh app]. exists [], x. split; [reflexivity|]. split.
+    + unfold send_to, get_user in Ex.
+      match type of Ex with context [match ?y with Some _ => _ | None => Panic P_unwrap_user end] => destruct y as [u|] eqn:Eu end;
+        cbn [rbind] in Ex; [|discriminate Ex].
+      injection Ex as <-. exists u. split; [exact Eu|reflexivity].
+    + rewrite Eco. reflexivity.
+Qed.
+
+(* JOIN, one accepted entry of the plan: the joiner is told first (the JOIN line, the topic if there is
+   one, the NAMES list), then one copy of the JOIN line goes to every OTHER member of the channel as it
+   is after the insertion; a refused entry announces nothing *)
+Theorem join_announce_accepted c nick client s acc ch create co o :
+  chans s !! ch = Some co -> join_announce cfg i c nick client s acc (ch, (true, create)) = Ok o ->
+  let line := from (c_source c) (lit "JOIN " ++ ch) in
+  exists names others,
+    names_lines s c client nick ch co true = Ok names /\
+    o = acc ++ [(i, line)]
+            ++ mine cfg i (match ch_topic co with Some (t, _) => [rpl_topic client ch t] | None => [] end ++ names)
+            ++ others /\
+    Forall2 (delivered s line) (List.filter (fun n => negb (str_eqb n nick)) (member_names co)) others.
+Proof.
+  intros Hco. unfold join_announce, get_chan. cbn [negb]. cbv beta iota. unfold str in *. rewrite Hco. cbn [rbind].
+  destruct (names_lines s c client nick ch co true) as [names|] eqn:En; cbn [rbind]; [|discriminate].
+  destruct (send_all s _ _) as [others|] eqn:Es; cbn [rbind]; [|discriminate].
+  intros [= <-]. exists names, others. split; [reflexivity|]. split; [reflexivity|]. now apply send_all_spec.
+Qed.
+
+Theorem join_announce_refused c nick client s acc ch create :
+  join_announce cfg i c nick client s acc (ch, (false, create)) = Ok acc.
+Proof. reflexivity. Qed.
+
+(* the whole JOIN command: the output is the refusals of the planning phase, to the sender, followed by
+   the announcements of the plan's entries in order, each made against the state in which ALL accepted
+   entries are already inserted *)
+Theorem join_output s c chs keys r nick u :
+  c_nick c = Some nick -> users s !! nick = Some u -> process_join cfg i s c chs keys = Ok r ->
+  exists plan o1 cnt o2,
+    join_phase1 cfg s c u nick (client_name c) chs keys 0 [] (N.of_nat (size (u_chans u))) = Ok (plan, o1, cnt) /\
+    rfold (join_insert nick) plan s = Ok (h_sh r) /\
+    rfold (join_announce cfg i c nick (client_name c) (h_sh r)) plan [] = Ok o2 /\
+    h_out r = mine cfg i o1 ++ o2.
+Proof.
+  intros Hn Hu. unfold process_join, own_nick, get_user. rewrite Hn. cbn [rbind]. rewrite Hu. cbn [rbind].
+  destruct (join_phase1 cfg s c u nick (client_name c) chs keys 0 [] (N.of_nat (size (u_chans u)))) as [[[plan o1] q]|] eqn:E; cbn [rbind]; [|discriminate].
+  destruct (rfold (join_insert nick) plan s) as [s'|] eqn:Ef; cbn [rbind]; [|discriminate].
+  match goal with |- context [rfold ?G plan []] => destruct (rfold G plan []) as [o2|] eqn:E3 end; cbn [rbind]; [|discriminate].
+  intros [= <-]. cbn [h_sh h_out]. exists plan, o1, q, o2. repeat split; assumption.
+Qed.
+
 (* NICK: the line with the old source goes to every registered user (C15_accepted has the list) *)
 
 End ann.
